@@ -68,8 +68,19 @@ func isWordTok(t string) bool {
 
 func bracketTok(t string) bool { return strings.ContainsAny(t[:1], "()[]{},") }
 
-var inlineMenu = []string{" ", "\t", "  ", " /*c*/ ", ""}
-var breakMenu = []string{"\n", "\n\n", "\r\n", " \n", "\n\t\n", " // c\n", "\n// c\n", "\n/* c */\n", "\n\n\n", "\n// c\n// d\n", "\n\n// c\n\n"}
+var inlineMenu = []string{" ", "\t", "  ", " /*c*/ ", "", " /* a\n b */ "}
+
+// continuesStatement: after these tokens a statement cannot end, so a block comment that spans lines is plain layout
+// even under Go's rule that such a comment acts like a line break.
+func continuesStatement(t string) bool {
+	switch t {
+	case "+", "-", "*", "/", "%", ",", "(", "[", "=", ":=", "==", "!=", "<", ">", "<=", ">=", "&&", "||", "!", "+=", "-=", "*=", "/=", "%=":
+		return true
+	}
+	return false
+}
+
+var breakMenu = []string{"\n", "\n/* a\n b */\n", "\n\n", "\r\n", " \n", "\n\t\n", " // c\n", "\n// c\n", "\n/* c */\n", "\n\n\n", "\n// c\n// d\n", "\n\n// c\n\n"}
 
 type layOutcome struct {
 	Ctx    string
@@ -101,6 +112,11 @@ func CheckC12(r *Run) int {
 		{"import-group", "import (\n\tu \"u.tsh\"\n\tw \"w.tsh\"\n)\nprint(u.F(), w.G())\n"},
 		{"import-single", "import u \"u.tsh\"\nprint(u.F())\n"},
 		{"multi-line-literals", "usage := `line one\n  line two  \n\nend`\nhelp := `a\nb`\nprint(usage, len(usage))\nprint(help, len(help), usage == help)\n"},
+		{"rejected-missing-return", "func f(a int) int {\n\tprint(a)\n}\nprint(f(1))\n"},
+		{"rejected-wrong-return-count", "func g(a int) (int, string) {\n\tif a > 1 {\n\t\tprint(a)\n\t}\n\treturn a\n}\nx, y := g(1)\nprint(x, y)\n"},
+		{"rejected-wrong-return-type", "func h() string {\n\tv := 1\n\treturn v\n}\nprint(h())\n"},
+		{"rejected-undefined-variable", "a := 1\nif a == 1 {\n\tb := 2\n}\nprint(b)\n"},
+		{"rejected-break-outside-loop", "a := 1\nif a == 1 {\n\tbreak\n}\n"},
 		{"minus-forms", "a := 5\nb := a - 1\nc := -2\nd := a - -3\nprint(b, c, d, a -1)\n"},
 	}
 	for _, s := range append(RepoSeeds(), extra...) {
@@ -185,6 +201,12 @@ func CheckC12(r *Run) int {
 				}
 				if orig == "" && (ls.toks[g-1] == "." || ls.toks[g] == "." || ls.toks[g-1] == "@") {
 					rep = orig // qualified names and @prog stay glued
+				}
+				if strings.Contains(rep, "\n") && !continuesStatement(ls.toks[g-1]) {
+					rep = " /* a b */ " // a comment with a line break only where the statement cannot end
+					if orig == "" && (ls.toks[g-1] == "." || ls.toks[g] == "." || ls.toks[g-1] == "@") {
+						rep = orig
+					}
 				}
 				gaps[g] = rep
 			}
@@ -492,5 +514,5 @@ func withAux(main string) map[string]string {
 }
 
 func isExtraSeed(n string) bool {
-	return n == "stmt-forms" || n == "minus-forms" || n == "multi-line-literals" || n == "import-group" || n == "import-single"
+	return n == "stmt-forms" || n == "minus-forms" || n == "multi-line-literals" || strings.HasPrefix(n, "rejected-") || n == "import-group" || n == "import-single"
 }
